@@ -8,10 +8,14 @@ with C1h (invalid command) — which is what a conforming controller without tha
 Personalities: `minimal` (IPM device global commands and chassis only), `plain` (every command below, two
 linear sensors, every configured channel has a link), `sdrtypes` (plain + one SDR of every record type of
 IPMI v2.0 ch. 43, most of which carry no ID string / no entity), `nonlinear` (plain + full sensors whose
-linearisation is 1/x, ln, log10 - with a raw reading of 0 or unused threshold bytes of 0 - sqrt, x^2, e^x),
+linearisation is 1/x, ln, log10 - with a raw reading of 0 or unused threshold bytes of 0 - sqrt, x^2, e^x - and
+two really non-linear sensors, linearisation 70h "non-linear" and 7Fh "non-linear, OEM defined" (table 43-1 byte
+24), whose readings and thresholds are ordinary non-zero bytes),
 `unavailable` (plain + a threshold and a discrete sensor that flag "reading/state unavailable", table 35-15
 byte 3 bit 5, as a sensor does during its initial update or right after a re-arm),
-`full` (everything: both SDR sets, a base channel without link, the HPM.1 upgrade commands),
+`full` (everything: both SDR sets, a base channel without link, the HPM.1 upgrade commands; the upgrade agent has
+two components, the description string of the second one - HPM.1 table 3-5, 12 bytes of ASCII / Latin-1 text - is
+`fw` + backslash + `update`: a backslash is an ordinary character),
 `luns` (plain + full and compact sensor records whose sensor owner LUN - table 43-1 / 43-2 byte 7 [1:0] - is 0, 1
 and 3: two full and two compact sensors that share their NUMBER and differ in LUN and reading, a full and a
 compact sensor whose number exists on LUN 3 only; Get Sensor Reading is answered per (responder LUN, number),
@@ -168,6 +172,9 @@ def sdrs_of_every_type(first_id):
 
 # linearisation codes of table 43-1 byte 24
 LIN_LN, LIN_LOG10, LIN_EXP, LIN_1_X, LIN_SQR, LIN_SQRT = 1, 2, 4, 7, 8, 10
+# "70h = non-linear, 71h-7Fh = non-linear, OEM defined": no formula; the factors of such a sensor hold for one
+# reading only (Get Sensor Reading Factors, IPMI v2.0 35.5)
+LIN_NONLINEAR, LIN_NONLINEAR_OEM_LAST = 0x70, 0x7f
 
 
 def sdrs_nonlinear(first_id):
@@ -183,10 +190,15 @@ def sdrs_nonlinear(first_id):
         sdr_full_lin(r + 4, 0x44, 'Flow sqrt', LIN_SQRT, 1),
         sdr_full_lin(r + 5, 0x45, 'Power sqr', LIN_SQR, 2, b=1, signed=True),
         sdr_full_lin(r + 6, 0x46, 'Gain exp', LIN_EXP, 1, thresholds=(5, 4, 3, 0, 1, 2)),
+        # really non-linear sensors: nothing is wrong with their reading (0x5a / 0x21) or thresholds
+        sdr_full_lin(r + 7, 0x47, 'Thermistor', LIN_NONLINEAR, 1),
+        sdr_full_lin(r + 8, 0x48, 'OEM curve', LIN_NONLINEAR_OEM_LAST, 3, b=2, thresholds=(0x70, 0x60, 0x50, 0x10, 0x20, 0x30)),
+        sdr_full_lin(r + 9, 0x49, 'Fan3 speed', 0, 4),          # a linear sensor AFTER them: the listing must get here
     ]
     readings = {0x40: [0x00, 0x00, 0xc0, 0x00], 0x41: [0x00, 0x64, 0xc0, 0x00], 0x42: [0x00, 0x10, 0xc0, 0x00],
                 0x43: [0x00, 0x00, 0xc0, 0x00], 0x44: [0x00, 0x09, 0xc0, 0x00], 0x45: [0x00, 0xfe, 0xc0, 0x00],
-                0x46: [0x00, 0x01, 0xc0, 0x00]}
+                0x46: [0x00, 0x01, 0xc0, 0x00], 0x47: [0x00, 0x5a, 0xc0, 0x00], 0x48: [0x00, 0x21, 0xc0, 0x00],
+                0x49: [0x00, 0x30, 0xc0, 0x00]}
     return recs, readings
 
 
@@ -479,20 +491,23 @@ class Bmc20(object):
     def _h_2c_2e(self, d):       # HPM.1 Get Target Upgrade Capabilities
         if not self._picmg(d, 0):
             return [0xc7]
-        return [0x00, 0x00, 0x00, 0x0e, 0x0a, 0x05, 0x05, 0x0a, 0x01]
+        return [0x00, 0x00, 0x00, 0x0e, 0x0a, 0x05, 0x05, 0x0a, 0x03]     # components 0 and 1 present
 
     def _h_2c_2f(self, d):       # HPM.1 Get Component Properties
         if not self._picmg(d, 2):
             return [0xc7]
-        if d[1] != 0:
+        if d[1] not in (0, 1):
             return [0x82]
         sel = d[2]
         if sel == 0:
             return [0x00, 0x00, 0x00]
         if sel == 1:
-            return [0x00, 0x00, 0x01, 0x23, 0x00, 0x00, 0x00, 0x00]
+            return [0x00, 0x00, 0x01, 0x23, 0x00, 0x00, 0x00, 0x00] if d[1] == 0 else \
+                [0x00, 0x00, 0x02, 0x05, 0x00, 0x00, 0x00, 0x00]
         if sel == 2:
-            return bytes([0x00, 0x00]) + b'APP20\x00\x00\x00\x00\x00\x00\x00'
+            # description string: 12 bytes of ASCII / Latin-1 text, NUL padded; component 1 is the boot loader
+            # updater `fw\update` (the backslash is a character like any other)
+            return bytes([0x00, 0x00]) + (b'APP20' if d[1] == 0 else b'fw\\update').ljust(12, b'\x00')
         return [0x83]
 
     # ---- HPM.1 upgrade (R1.0 ch. 3: 30h abort, 31h initiate, 32h upload block, 33h finish, 34h status, 35h activate)
@@ -509,7 +524,7 @@ class Bmc20(object):
     def _h_2c_31(self, d):       # Initiate Upgrade Action: components mask, action
         if not self._picmg(d, 2):
             return [0xc7]
-        if d[1] & ~0x01 or d[2] > 3:
+        if d[1] & ~0x03 or d[2] > 3:
             return self._done(0x31, 0xcc)
         self.upgrade.update(action=d[2], block=0, bytes=0)
         return self._done(0x31, 0x00)
